@@ -52,6 +52,9 @@ func TestC18Reload(t *testing.T) {
 			steps = append(steps, reloadStep{Kind: rapid.SampledFrom([]string{"good", "good", "unparsable", "check-fails", "samedir-unsupported", "missing-file"}).Draw(t, "kind"),
 				Load: rapid.SampledFrom([]int{0, 6, 18}).Draw(t, "load"), HUPs: rapid.SampledFrom([]int{1, 1, 2, 5}).Draw(t, "hups")})
 		}
+		if rapid.Bool().Draw(t, "forceLoadedGood") {
+			steps = append([]reloadStep{{Kind: "good", Load: 18, HUPs: 1}}, steps...)
+		}
 		root, err := os.MkdirTemp("", "reload-")
 		if err != nil {
 			t.Fatalf("VERIF-INFRA %v", err)
@@ -164,6 +167,21 @@ func TestC18Reload(t *testing.T) {
 			}
 			if st.Load > 0 {
 				time.Sleep(40 * time.Millisecond) // let the request queues fill before the signal arrives
+				// a burst of password-change requests right before the signal: some are queued when the reload is processed
+				for b := 0; b < 8; b++ {
+					wg.Add(1)
+					go func() {
+						defer wg.Done()
+						code, body, err := a.api("/api/update", map[string]string{"username": "carl", "oldpassword": "carl-0", "newpassword": "carl-0"}, nil)
+						if err == nil && code != 200 {
+							err = fmt.Errorf("update of carl answered %d %s", code, body)
+						}
+						if err != nil {
+							bad.Store(fmt.Sprintf("password change in flight during reload got no normal verdict: %v", err))
+						}
+					}()
+				}
+				time.Sleep(3 * time.Millisecond)
 			}
 			from := a.nlines()
 			for h := 0; h < st.HUPs; h++ {
